@@ -375,13 +375,19 @@ class Exec:
             args = split_top(m.group(2)) if m.group(2) else []
             return Enum(VARIANT_DISCR[var], {var: Struct({i: self.operand(path, a) for i, a in enumerate(args)})})
         m = re.match(r"([\w:<>' ,]+?)\s*\{(.*)\}$", s)
-        if m:
+        if m and not re.match(r"[\w:<>'&, \[\]\(\)+]*?::?([A-Z]\w*)\(", s):
             fields, names = {}, []
             for i, fv in enumerate(split_top(m.group(2))):
                 n, v = fv.split(":", 1)
                 names.append(n.strip())
                 fields[i] = self.operand(path, v)
             return Struct(fields, m.group(1).split("::")[0].strip(), names)
+        m = re.match(r"(?:[\w<>'&, \[\]+]|::|\((?=[^)]*\)::))*?(?:::)?([A-Z]\w*)(?:::<[^()]*>)?(?:\((.*)\))?$", s)
+        if m and not s.startswith(("move ", "copy ", "const ", "&")):
+            # a tuple struct or an enum variant of a user type: kept by name
+            var = m.group(1)
+            args = split_top(m.group(2)) if m.group(2) else []
+            return Enum(var, {var: Struct({i: self.operand(path, a) for i, a in enumerate(args)})})
         raise Unsupported("rvalue %r" % s)
 
     # ---- running
